@@ -70,6 +70,7 @@ def run(chk):
         R = parse_per_cell(t)
         if 'panic' in P or 'panic' in R:
             npanic += 1
+            chk.panic_record(r, P.get('panic') or R.get('panic'), rp)
             continue
         if tol.ill:
             chk.extra_cov['ill_conditioned_skipped'] = chk.extra_cov.get('ill_conditioned_skipped', 0) + 1
@@ -142,6 +143,7 @@ def run(chk):
         Q = parse_per_cell(t)
         if 'panic' in P or 'panic' in Q:
             npanic += 1
+            chk.panic_record(r, P.get('panic') or Q.get('panic'), rp)
             continue
         if tol.ill or tol2.ill:
             chk.extra_cov['ill_conditioned_skipped'] = chk.extra_cov.get('ill_conditioned_skipped', 0) + 1
